@@ -165,6 +165,10 @@ def run(ctx: Ctx):
             rest = blk[blk.index(c) + 1 :]
             fold = [s for s in rest if isinstance(s, ast.If) and ast.unparse(s.test) == f"not {fl}" and proven and any(ast.unparse(x) == f"{proven} = False" for x in s.body)]
             ctx.ob("C17-O2", "R3 STATUS-USE", bnp, "a node whose column generation did not converge clears the 'bounds proven' fact", bool(fold), "", node=c)
+            if fold:
+                before = rest[: rest.index(fold[0])]
+                leaves = [x for st_ in before for x in ast.walk(st_) if isinstance(x, (ast.Continue, ast.Break, ast.Return))]
+                ctx.ob("C17-O2", "R3 STATUS-USE", bnp, "the fact is cleared before anything can prune or leave the node (no continue/break/return between the node LP and the clearing)", not leaves, f"a `{type(leaves[0]).__name__.lower()}` at line {leaves[0].lineno} comes first: a node pruned because its restricted master was infeasible (value inf, not converged) is discarded as if its subtree were proven empty, and the incumbent is labelled OPTIMAL" if leaves else "", node=leaves[0] if leaves else c)
     ctx.require(proven is not None, "'bounds proven' variable not found in _branch_and_price")
     sets_true = [n for n in own_nodes(bnp.node) if isinstance(n, ast.Assign) and ast.unparse(n.targets[0]) == proven and ast.unparse(n.value) == "True"]
     ctx.ob("C17-O2", "R2 BUDGET-EXIT", bnp, "'bounds proven' never goes back to true", not sets_true, "", node=bnp.node)
@@ -330,6 +334,18 @@ def _v_pricing_no_recheck(tree):
     M.replace_stmt(g, lambda s: isinstance(s, ast.If) and M.src_has(s.test, "total_size > capacity"), [])
 
 
+def _v_clear_after_prune(tree):
+    g = M.find_func(tree, "_branch_and_price")
+    holder = {}
+
+    def grab(s):
+        holder["s"] = s
+        return []
+
+    M.replace_stmt(g, lambda s: isinstance(s, ast.If) and M.src_is(s.test, "not converged") and M.src_has(s, "bounds_proven = False"), grab)
+    M.replace_stmt(g, lambda s: isinstance(s, ast.If) and M.src_has(s.test, "lp_obj == float('inf')") and any(isinstance(x, ast.Continue) for x in ast.walk(s)), lambda s: [s, holder["s"]])
+
+
 def _t_reformat(tree):
     pass
 
@@ -348,6 +364,7 @@ VARIANTS = [
     M.Variant("bounded master LP keeps basic artificials (original defect)", BP, _v_no_drive_out, "C17-O5"),
     M.Variant("cutting-stock plan published without demand verification", CG, _v_cs_no_verify, "C17-O1"),
     M.Variant("pricing returns the DP pattern without width re-check", PRI, _v_pricing_no_recheck, "C17-O4"),
+    M.Variant("'bounds proven' cleared only after the prune (seed C17-B)", BP, _v_clear_after_prune, "C17-O2"),
     M.Variant("twin: reformat cg", CG, _t_reformat, None),
     M.Variant("twin: reformat bp", BP, _t_reformat, None),
     M.Variant("twin: reformat pricing", PRI, _t_reformat, None),
